@@ -31,7 +31,8 @@ VARIANTS = ["rel", "san"]
 
 def generated_obligations():
     """PcGen/CalcOpsObl.lean: calcOpTable_ok, calcOp_default (operator table extracted from parseOp's switch)"""
-    return 2
+    # + PcGen/CliOptObl.lean: 13 obligations (option table, enumerators, both switches, pinned texts of 7 functions)
+    return 2 + 13
 
 
 ASSUMPTIONS = ["HAVE_INT128_T build (maxint_t = int128_t)", "input strings up to 200 bytes in the streams; theorems hold for all byte lists"]
